@@ -7,6 +7,7 @@
    coq/gen/GenC09.v):
      pow_fix   : KindInferenceMapper.map_power returns a kind (false: no return statement)
      new_marks : SymbolKindTable.set marks the table changed when it adds a NEW entry
+     conflict_raises : SymbolKindTable.set re-raises a failing unify after printing its message
      isnan_any : builtin_isnan reduces with .any()  (false: elementwise numpy.isnan)
 
    Scope: expressions built from constants, variables, sums, products, quotients, powers,
@@ -76,9 +77,11 @@ Definition unify (a b : okind) : res okind :=
       | _, KBool => Err ValueError
       | KUser i, KUser j => if String.eqb i j then Ok a else Err ValueError
       | KUser _, KScalar _ => Ok a
+      | KUser _, KInt => Ok a
       | KUser _, _ => Err AssertionError
       | KArray r, KArray s => Ok (Some (KArray (r && s)))
       | KArray r, KScalar s => Ok (Some (KArray (r && s)))
+      | KArray _, KInt => Ok a
       | KArray _, _ => Err AssertionError
       | KScalar _, KUser _ => Ok b
       | KScalar r, KArray s => Ok (Some (KArray (r && s)))
@@ -338,6 +341,7 @@ Record cfg := mkCfg {
   pow_fix : bool;
   new_marks : bool;
   isnan_any : bool;
+  conflict_raises : bool;
   st_exact : list string;       (* is_state_variable: literal names *)
   st_prefixes : list string     (* is_state_variable: prefixes *)
 }.
@@ -400,7 +404,8 @@ Record skt := mkSkt {
   sg : tbl;                        (* global_table *)
   sp : list (string * tbl);        (* per_phase_table *)
   schanged : bool;                 (* _changed *)
-  sconf : nat                      (* number of "trying to derive 'kind' ..." messages printed *)
+  sconf : nat;                     (* number of "trying to derive 'kind' ..." messages printed *)
+  sexn : option exn                (* the exception of the first failed unify in `set` *)
 }.
 
 Fixpoint tupdate (t : tbl) (x : string) (k : okind) : tbl :=
@@ -410,16 +415,19 @@ Fixpoint tupdate (t : tbl) (x : string) (k : okind) : tbl :=
   end.
 
 (* the body of SymbolKindTable.set on one dict: new dict, changed?, message printed? *)
-Definition tbl_set (nm : bool) (t : tbl) (x : string) (k : okind) : tbl * bool * bool :=
+Definition tbl_set (nm : bool) (t : tbl) (x : string) (k : okind) : tbl * bool * option exn :=
   match alookup t x with
   | Some old =>
-      if okind_eqb old k then (t, false, false)
+      if okind_eqb old k then (t, false, None)
       else match unify k old with
-           | Err _ => (t, false, true)
-           | Ok k' => if okind_eqb old k' then (t, false, false) else (tupdate t x k', true, false)
+           | Err e => (t, false, Some e)
+           | Ok k' => if okind_eqb old k' then (t, false, None) else (tupdate t x k', true, None)
            end
-  | None => (t ++ [(x, k)], nm, false)
+  | None => (t ++ [(x, k)], nm, None)
   end.
+
+Definition conf_inc (cf : option exn) : nat := match cf with Some _ => 1 | None => 0 end.
+Definition first_exn (a b : option exn) : option exn := match a with Some e => Some e | None => b end.
 
 Fixpoint pupdate (p : list (string * tbl)) (ph : string) (t : tbl) : list (string * tbl) :=
   match p with
@@ -436,11 +444,12 @@ Definition local_of (T : skt) (ph : string) : tbl :=
 Definition tset (C : cfg) (T : skt) (ph x : string) (k : okind) : skt :=
   if is_state C x then
     match tbl_set (new_marks C) (sg T) x k with
-    | (t', ch, cf) => mkSkt t' (sp T) (schanged T || ch) (sconf T + (if cf then 1 else 0))
+    | (t', ch, cf) => mkSkt t' (sp T) (schanged T || ch) (sconf T + conf_inc cf) (first_exn (sexn T) cf)
     end
   else
     match tbl_set (new_marks C) (local_of T ph) x k with
-    | (t', ch, cf) => mkSkt (sg T) (pupdate (sp T) ph t') (schanged T || ch) (sconf T + (if cf then 1 else 0))
+    | (t', ch, cf) => mkSkt (sg T) (pupdate (sp T) ph t') (schanged T || ch) (sconf T + conf_inc cf)
+                            (first_exn (sexn T) cf)
     end.
 
 (* what a table lookup through the mapper sees: global first, then the phase's dict *)
@@ -472,25 +481,35 @@ Section Finder.
   (* one iteration of the inner while loop after `phase_name, stmt = stmt_queue.pop()`.
      make_kim is called BEFORE the loop identifiers are set: if the phase has no dict yet,
      the mapper gets a fresh, disconnected {} as local table. *)
+  (* the exception `set` re-raises (repaired shape); the model computes on and reports the FIRST failed
+     unify at the next point where control would have left `set` *)
+  Definition raised (T : skt) : option exn := if conflict_raises C then sexn T else None.
+
   Definition proc_stmt (T : skt) (ph : string) (s : stmt) : step_res :=
     match s with
     | SAssign x has_sub rhs loops =>
         let had := alookup (sp T) ph in
         let T1 := fold_left (fun T i => tset C T ph i (Some KInt)) loops T in
-        if has_sub then SDone T1 false
-        else
-          let L := match had with Some _ => local_of T1 ph | None => [] end in
-          match kmap C reg (sg T1) L rhs with
-          | Err UnableToInferKind => SRetry T1
-          | Err e => SFail e
-          | Ok k => SDone (tset C T1 ph x k) true
-          end
+        match raised T1 with
+        | Some e => SFail e
+        | None =>
+            if has_sub then SDone T1 false
+            else
+              let L := match had with Some _ => local_of T1 ph | None => [] end in
+              match kmap C reg (sg T1) L rhs with
+              | Err UnableToInferKind => SRetry T1
+              | Err e => SFail e
+              | Ok k => let T2 := tset C T1 ph x k in
+                        match raised T2 with Some e => SFail e | None => SDone T2 true end
+              end
+        end
     | SCall xs f args kwn =>
         let L := local_of T ph in
         match kcall reg f (map (kmap C reg (sg T) L) args) kwn with
         | Err UnableToInferKind => SRetry T
         | Err e => SFail e
-        | Ok ks => SDone (set_many C T ph xs ks) true
+        | Ok ks => let T2 := set_many C T ph xs ks in
+                   match raised T2 with Some e => SFail e | None => SDone T2 true end
         end
     | SOther => SDone T false
     end.
@@ -543,7 +562,7 @@ Section Finder.
   Definition items_of (D : program) : list item :=
     flat_map (fun ps => map (fun s => (fst ps, s)) (snd ps)) D.
 
-  Definition reset (T : skt) : skt := mkSkt (sg T) (sp T) false (sconf T).
+  Definition reset (T : skt) : skt := mkSkt (sg T) (sp T) false (sconf T) (sexn T).
 
   (* outer `while True:` *)
   Fixpoint outer (fo fi : nat) (D : program) (T : skt) : res skt :=
@@ -592,19 +611,31 @@ Section Finder.
     end.
 
   Definition init_table : skt :=
-    mkSkt [("<t>", Some (KScalar true)); ("<dt>", Some (KScalar true))] [] false 0.
+    mkSkt [("<t>", Some (KScalar true)); ("<dt>", Some (KScalar true))] [] false 0 None.
 
   Definition apply_forced (forced : list (string * string * kind)) (T : skt) : skt :=
     fold_left (fun T f => match f with (ph, x, k) => tset C T ph x (Some k) end) forced T.
 
+  (* every loop identifier of every Assign is set to Integer before the work list starts *)
+  Definition apply_loops (D : program) (T : skt) : skt :=
+    fold_left (fun T it => match snd it with
+                           | SAssign _ _ _ loops => fold_left (fun T i => tset C T (fst it) i (Some KInt)) loops T
+                           | _ => T
+                           end) (items_of D) T.
+
   (* SymbolKindFinder.__call__(names, phases, forced_kinds) *)
   Definition infer (fo fi : nat) (D : program) (forced : list (string * string * kind)) : res skt :=
-    match outer fo fi D (apply_forced forced init_table) with
-    | Err e => Err e
-    | Ok T => match final_check T D with
-              | Some e => Err e
-              | None => Ok T
-              end
+    let T0 := apply_loops D (apply_forced forced init_table) in
+    match raised T0 with
+    | Some e => Err e
+    | None =>
+        match outer fo fi D T0 with
+        | Err e => Err e
+        | Ok T => match final_check T D with
+                  | Some e => Err e
+                  | None => Ok T
+                  end
+        end
     end.
 End Finder.
 
